@@ -22,7 +22,7 @@ MATCHER_MODULES = ["rp2.tax_engine", "rp2.accounting_engine", "rp2.abstract_acco
 
 def items(pr):
     out = [fn(AAM + "AbstractChronologicalAccountingMethod.seek_non_exhausted_acquired_lot"), lemma("C01.rank"), custom("no_global_state", no_global_state),
-           custom("set_to_index_window", set_to_index_window), custom("computed_data_call_sites", computed_data_call_sites)]
+           custom("set_to_index_window", set_to_index_window), custom("key_order", key_order), custom("computed_data_call_sites", computed_data_call_sites)]
     for m in ("lifo", "hifo", "lofo"):
         out.append(fn(f"{PLUG}{m}.AccountingMethod.sort_key"))
     return out
@@ -73,6 +73,72 @@ def set_to_index_window(pr):
 def computed_data_call_sites(pr):
     from props import C06
     return C06.computed_data_call_sites(pr)
+
+
+KEY_SAMPLES = [("2020-05-01T12:00:00.250000+00:00", "3"), ("2020-05-01T12:00:00.750000+00:00", "4"), ("2020-05-01T12:00:00+00:00", "12"), ("2020-05-01T12:00:00+00:00", "2"),
+               ("2020-05-01T21:00:00+09:00", "7"), ("2020-05-01T07:30:00-05:00", "8"), ("2020-05-01T12:30:00+00:00", "9"), ("2020-11-01T01:30:00-04:00", "5"), ("2020-11-01T01:10:00-05:00", "6"),
+               ("2020-03-08T06:59:59.999999+00:00", "10"), ("2020-03-08T07:00:00+00:00", "11"), ("2019-12-31T23:59:59+00:00", "100"), ("2020-01-01T08:59:58+09:00", "99"),
+               ("2021-01-01T00:00:00+14:00", "1"), ("2020-12-31T10:00:00.000001+00:00", "13")]
+
+
+def key_order(pr):
+    """The lot window of a disposal is found through string keys.  Their order must be the order of (instant, row id) - whatever the machine's time
+    zone - and the probe key of an instant must sit after every key of that instant and before every key of a later one.  Decided by evaluating the
+    real key functions of the tree under test on a fixed set of timestamps (sub-second differences, equal instants in different zones, DST
+    transition hours of two zones, year boundaries) under two TZ settings."""
+    from pyvc import astcheck as A
+    from pyvc.replay import run_native
+    import json
+    out = []
+    for tz in ("UTC", "EST5EDT,M3.2.0,M11.1.0"):
+        os_env = {"TZ": tz}
+        res = run_native("C09", {"kind": "avl_keys", "tz": tz}, pr.repo)
+        bad = res.get("observed") if res.get("reproduced") else ([] if "keys" in res else [res.get("error", "no result")])
+        vc = A.bvc("rp2.accounting_engine.AccountingEngine._get_avl_node_key", "readframe", f"keys_order_like_instant_then_id_under_TZ_{A._lab(tz)[:12]}", not bad, "src/rp2/accounting_engine.py", str(bad)[:400],
+                   open_="keys" not in res and not res.get("reproduced"), definite=True)
+        vc.note = "native:" + json.dumps({"kind": "avl_keys", "tz": tz})
+        out.append(vc)
+    return out
+
+
+def replay(pr, vc, model):
+    import json
+    from pyvc.replay import run_native
+    if (vc.note or "").startswith("native:"):
+        desc = json.loads(vc.note[len("native:"):])
+        return {"desc": desc, **run_native("C09", desc, pr.repo)}
+    return None
+
+
+def native(desc):
+    if desc.get("kind") == "avl_keys":
+        import os
+        import time
+        os.environ["TZ"] = desc.get("tz", "UTC")
+        time.tzset()
+        from dateutil.parser import parse
+        from prezzemolo.avl_tree import AVLTree
+        from rp2.accounting_engine import AccountingEngine
+        from rp2.plugin.accounting_method.fifo import AccountingMethod
+        t = AVLTree()
+        t.insert_node(1970, AccountingMethod())
+        eng = AccountingEngine(years_2_methods=t)
+        items = [(parse(ts), rid) for ts, rid in KEY_SAMPLES]
+        keys = [eng._get_avl_node_key(ts, rid) for ts, rid in items]
+        probes = [eng._get_avl_node_key_with_max_disambiguator(ts) for ts, _ in items]
+        bad = []
+        for i, (ta, ia) in enumerate(items):
+            for j, (tb, ib) in enumerate(items):
+                want = (ta.timestamp(), int(ia)) < (tb.timestamp(), int(ib)) if ta != tb or ia != ib else False
+                if ta == tb:
+                    want = int(ia) < int(ib)
+                if (keys[i] < keys[j]) != want:
+                    bad.append(f"key({KEY_SAMPLES[i]}) < key({KEY_SAMPLES[j]}) is {keys[i] < keys[j]}, (instant, id) order says {want}")
+                # the probe of instant a covers exactly the keys of instants <= a
+                if (keys[j] <= probes[i]) != (tb <= ta):
+                    bad.append(f"probe({KEY_SAMPLES[i][0]}) covers key({KEY_SAMPLES[j]}): {keys[j] <= probes[i]}, instants say {tb <= ta}")
+        return {"reproduced": bool(bad), "keys": keys[:3], "observed": bad[:6], "required": "string order of the keys = order of (instant, row id), independent of the local time zone"}
+    return {"reproduced": False}
 
 
 MANIFEST_ENTRY = {
